@@ -228,6 +228,56 @@ pub fn encode_streaming(
     Encoder::new(iter.into_iter().map(|x| *x.borrow()))
 }
 
+#[cfg(feature = "verif-hooks")]
+#[allow(missing_docs)]
+/// Verification hooks (feature `verif-hooks`): plain mirror of the iterator encoder's private state.
+pub mod verif {
+    use super::*;
+
+    #[derive(Clone, Copy, Debug, PartialEq, Eq)]
+    pub struct EncState {
+        /// 0 = Init, 1 = LookingForEscape, 2 = HandlingEscape, 3 = End
+        pub tag: u8,
+        /// the state's counter (sign-extended for `End`)
+        pub n: i16,
+        pub padding: u8,
+        /// value `finalize()` would return for the running digest
+        pub crc: u16,
+    }
+
+    impl<I: Iterator<Item = u8>> Encoder<I> {
+        pub fn verif_state(&self) -> EncState {
+            let (tag, n) = match self.state {
+                EncoderState::Init(n) => (0, n as i16),
+                EncoderState::LookingForEscape(n) => (1, n as i16),
+                EncoderState::HandlingEscape(n) => (2, n as i16),
+                EncoderState::End(n) => (3, n as i16),
+            };
+            EncState {
+                tag,
+                n,
+                padding: self.padding.0,
+                crc: self.crc.clone().finalize(),
+            }
+        }
+
+        pub fn verif_from_state(iter: I, st: &EncState) -> Self {
+            let state = match st.tag {
+                0 => EncoderState::Init(st.n as _),
+                1 => EncoderState::LookingForEscape(st.n as _),
+                2 => EncoderState::HandlingEscape(st.n as _),
+                _ => EncoderState::End(st.n as _),
+            };
+            Encoder {
+                state,
+                crc: CRC_X25.digest_with_initial((st.crc ^ 0xffff).reverse_bits()),
+                padding: Padding(st.padding),
+                iter,
+            }
+        }
+    }
+}
+
 #[cfg(test)]
 mod tests {
     use crate::transport::decode;
